@@ -116,7 +116,10 @@ def handle : Handler := fun op inp =>
       let imax ← asNat (← field inp "indicesMax")
       let nProc ← asNat (← field inp "nProc")
       let B ← parseBudget (← field inp "budget")
-      return jObj [("res", jExcept jMat (transposeV2 M imax nProc B)), ("budget", jBudget B),
+      let jb ← asNat (fieldD inp "joinBlock" (Json.num 0))
+      let res := if jb == 0 then transposeV2 M imax nProc B
+                 else transposeV2Blocked 0 M imax nProc B jb
+      return jObj [("res", jExcept jMat res), ("budget", jBudget B),
                    ("slices", jPairs (chunks imax (ceilDiv imax nProc)))]
   | "sparse.pivot" => some do
       let M ← parseMat (← field inp "mat")
